@@ -11,6 +11,7 @@ import (
 	"fmt"
 	"io"
 	"math/big"
+	"math/rand"
 	"os"
 	"path/filepath"
 	"testing"
@@ -34,6 +35,7 @@ type lcAct struct {
 	H    int    `json:"h"`
 	At   string `json:"at"`
 	Ok   bool   `json:"ok"`
+	Torn bool   `json:"torn"`
 }
 
 type lcInput struct {
@@ -64,6 +66,8 @@ type lcRef struct {
 	hash      []common.Uint256
 	balA      []uint64
 	balB      []uint64
+	proofs    map[[2]int][]common.Uint256 // (leaf g, tree of height h) -> audit path
+	blockRoot []common.Uint256
 }
 
 type lcWorld struct {
@@ -81,6 +85,7 @@ type lcWorld struct {
 	events   []lcObs
 	crashEv  int // index of the hook event (in this operation) at which the image is taken; -1 none
 	crashDir string
+	rng      *rand.Rand
 }
 
 func lcCopyDir(src, dst string) {
@@ -106,6 +111,15 @@ func lcCopyDir(src, dst string) {
 		_, err = io.Copy(out, in)
 		return err
 	}))
+}
+
+// a crash while the eager hash-file append was in flight: a partial hash at the tail of merkle_tree.db
+func lcTear(dir string) {
+	f, err := os.OpenFile(filepath.Join(dir, MerkleTreeStorePath), os.O_WRONLY|os.O_APPEND|os.O_CREATE, 0644)
+	vhMust(err)
+	_, err = f.Write([]byte{0xde, 0xad, 0xbe, 0xef, 1, 2, 3, 4, 5, 6, 7, 8, 9, 10, 11, 12, 13})
+	vhMust(err)
+	vhMust(f.Close())
 }
 
 func (w *lcWorld) newDir() string {
@@ -141,7 +155,30 @@ func (w *lcWorld) makeBlock(l *LedgerStoreImp, h int) *types.Block {
 	mtx.Sigs = []types.Sig{{PubKeys: []keypair.PublicKey{w.acct.PublicKey}, M: 1, SigData: [][]byte{sig}}}
 	tx, err := mtx.IntoImmutable()
 	vhMust(err)
-	txRoot := common.ComputeMerkleRoot([]common.Uint256{tx.Hash()})
+	txs := []*types.Transaction{tx}
+	for k := 0; k < w.rng.Intn(3); k++ {
+		var to common.Address
+		for i := range to {
+			to[i] = byte(0xC0 + w.rng.Intn(3))
+		}
+		sts := []*ont.TransferState{{From: w.acct.Address, To: to, Value: uint64(1+w.rng.Intn(9)) * 100000000}}
+		code, err := cutils.BuildNativeInvokeCode(nutils.OntContractAddress, 0, "transfer", []interface{}{sts})
+		vhMust(err)
+		m2 := &types.MutableTransaction{GasPrice: 0, GasLimit: 30000, TxType: types.InvokeNeo, Nonce: uint32(5000 + 10*h + k),
+			Payer: w.acct.Address, Payload: &payload.InvokeCode{Code: code}}
+		h2 := m2.Hash()
+		sg, err := signature.Sign(w.acct, h2.ToArray())
+		vhMust(err)
+		m2.Sigs = []types.Sig{{PubKeys: []keypair.PublicKey{w.acct.PublicKey}, M: 1, SigData: [][]byte{sg}}}
+		t2, err := m2.IntoImmutable()
+		vhMust(err)
+		txs = append(txs, t2)
+	}
+	var hashes []common.Uint256
+	for _, t := range txs {
+		hashes = append(hashes, t.Hash())
+	}
+	txRoot := common.ComputeMerkleRoot(hashes)
 	prev := l.GetCurrentBlockHash()
 	prevHeader, err := l.GetHeaderByHash(prev)
 	vhMust(err)
@@ -150,7 +187,7 @@ func (w *lcWorld) makeBlock(l *LedgerStoreImp, h int) *types.Block {
 	header := &types.Header{Version: 0, PrevBlockHash: prev, TransactionsRoot: txRoot,
 		BlockRoot: l.GetBlockRootWithNewTxRoots(uint32(h), []common.Uint256{txRoot}),
 		Timestamp: prevHeader.Timestamp + 10, Height: uint32(h), ConsensusData: uint64(h), NextBookkeeper: nb}
-	block := &types.Block{Header: header, Transactions: []*types.Transaction{tx}}
+	block := &types.Block{Header: header, Transactions: txs}
 	bh := block.Hash()
 	bsig, err := signature.Sign(w.acct, bh[:])
 	vhMust(err)
@@ -161,7 +198,7 @@ func (w *lcWorld) makeBlock(l *LedgerStoreImp, h int) *types.Block {
 
 func newLcWorld(maxH int) *lcWorld {
 	log.InitLog(4)
-	w := &lcWorld{maxH: maxH, crashEv: -1}
+	w := &lcWorld{maxH: maxH, crashEv: -1, rng: vhRand()}
 	root, err := os.MkdirTemp(os.Getenv("VERIF_SCRATCH"), "lc")
 	vhMust(err)
 	w.root = root
@@ -201,6 +238,14 @@ func newLcWorld(maxH int) *lcWorld {
 		w.ref.hash = append(w.ref.hash, b.Hash())
 		w.ref.balA = append(w.ref.balA, w.ontBalance(r, w.acct.Address))
 		w.ref.balB = append(w.ref.balB, w.ontBalance(r, w.addrB))
+	}
+	w.ref.proofs = map[[2]int][]common.Uint256{}
+	for h := 0; h <= maxH; h++ {
+		for g := 0; g <= h; g++ {
+			pr, err := r.GetMerkleProof(uint32(g), uint32(h))
+			vhMust(err)
+			w.ref.proofs[[2]int{g, h}] = pr
+		}
 	}
 	vhMust(r.Close())
 	VerifHook = w.hook
@@ -348,6 +393,9 @@ func (w *lcWorld) runPath(pi int, steps []lcAct, out *vhOut) {
 				w.abandon()
 				os.RemoveAll(w.dir)
 				w.dir = w.crashDir
+				if steps[j].Torn {
+					lcTear(w.dir)
+				}
 				emit(j, "Crash", lcObs{Ok: true})
 				i = j + 1
 			} else {
@@ -359,6 +407,9 @@ func (w *lcWorld) runPath(pi int, steps []lcAct, out *vhOut) {
 			w.abandon()
 			os.RemoveAll(w.dir)
 			w.dir = d
+			if s.Torn {
+				lcTear(w.dir)
+			}
 			emit(i, "Crash", lcObs{Ok: true})
 			i++
 		case "Reopen":
@@ -416,6 +467,9 @@ func (w *lcWorld) runPath(pi int, steps []lcAct, out *vhOut) {
 				w.abandon()
 				os.RemoveAll(w.dir)
 				w.dir = w.crashDir
+				if steps[j].Torn {
+					lcTear(w.dir)
+				}
 				emit(j, "Crash", lcObs{Ok: true})
 				i = j + 1
 			} else {
@@ -456,11 +510,15 @@ func (w *lcWorld) runPath(pi int, steps []lcAct, out *vhOut) {
 				fin.Err += fmt.Sprintf("%s: balances differ at %d: A=%d/%d B=%d/%d;", stage, h, a, w.ref.balA[h], b, w.ref.balB[h])
 			}
 			for g := 0; g <= h; g++ {
+				pr, err := w.ledger.GetMerkleProof(uint32(g), uint32(h))
+				if err != nil || fmt.Sprint(pr) != fmt.Sprint(w.ref.proofs[[2]int{g, h}]) {
+					fin.Err += fmt.Sprintf("%s: block merkle proof (%d,%d) differs (%v);", stage, g, h, err)
+				}
 				if w.ledger.GetBlockHash(uint32(g)) != w.ref.hash[g] {
 					fin.Err += fmt.Sprintf("%s: block hash %d differs;", stage, g)
 				}
 				if g > 0 {
-					if ev, err := w.ledger.GetEventNotifyByBlock(uint32(g)); err != nil || len(ev) != 1 {
+					if ev, err := w.ledger.GetEventNotifyByBlock(uint32(g)); err != nil || len(ev) != len(w.ref.blocks[g].Transactions) {
 						fin.Err += fmt.Sprintf("%s: events of block %d missing (%v);", stage, g, err)
 					}
 				}
